@@ -43,7 +43,7 @@ Definition model03 (k : case03) :=
   let '(os, cf) := sim (q_drift k) (q_trust k) (q_gate k) u (init_cfg (q_tail k) (q_init k)) (map fst (q_acts k)) in
   (os,
    map (ret_of cf) (seq 0 (length (c_thr cf))),
-   model_probe_all (q_tail k) (top_of k) cf,
+   model_probe_all (q_tail k) (N.max (top_of k) (rs_head (c_store cf) + 2)) cf,
    sort_nodup (map h_height (rs_log (c_store cf))),
    N.of_nat (length (sort_nodup (map h_id (rs_log (c_store cf)))))).
 
